@@ -237,6 +237,8 @@ JudgeBkli(e) ==
   ELSE IF \E i \in DOMAIN e.migrate : ~DiffOK(e.out, e.inputs[i], e.migrate[i].layer)
        THEN "migration: common base + bkld layer does not evaluate to the input (specification)"
   ELSE IF \E i \in DOMAIN e.migrate : e.migrate[i].outs # <<e.inputs[i]>> THEN "migration: bkl does not reproduce the input"
+  ELSE IF "together" \in DOMAIN e /\ ~e.together.ok THEN "migration: bkl fails on the migrated layers evaluated in one run"
+  ELSE IF "together" \in DOMAIN e /\ e.together.outs # e.inputs THEN "migration: the migrated layers evaluated in one run do not reproduce the inputs"
   ELSE ""
 TTool ==
   /\ IsEvent("Tool") /\ Advance /\ Keep /\ UNCHANGED shas
